@@ -9,6 +9,7 @@
 -/
 import VrlProofs.Lemmas.C32
 import VrlProofs.Lemmas.C32Cycle
+import VrlProofs.Lemmas.C32Source
 
 namespace C32
 open Grok Rx
@@ -137,6 +138,158 @@ theorem circular_has_cycle (P : Prims) (aliases : List (Str × Str)) (rule x : S
   subst hweq
   simp only [Ctx.empty, List.nil_append] at hx
   cases pre <;> simp_all
+
+/-! ## (ii) the regex source of a rule: anchored concatenation, one named group per capture
+
+  A *flat* rule is verbatim text interleaved with placeholders whose matcher is an alias with a
+  placeholder-free definition (`ReadsAs` ties the rule text to its items through the model's own
+  segmentation and placeholder parser). `specFrom` is the Spec: texts and definitions verbatim, in
+  order, `(?<grokK>definition)` for the K-th placeholder with a destination; `fields` maps `K` to
+  the declared destination and filters. Text is **not** escaped by vrl. -/
+
+/-- (ii) the source vrl builds for a flat rule is `(?m)\A` + the ordered concatenation + `\z`, and
+    the registered fields are exactly the declared destinations/filters under `grok0, grok1, …`. -/
+theorem flat_rule_source (P : Prims) (aliases : List (Str × Str)) (rule : Str) (items : List SItem)
+    (h : ReadsAs P aliases rule items) :
+    ruleSource P aliases rule = .ok (wrap (specFrom 0 items).1, (specFrom 0 items).2) := by
+  unfold ruleSource
+  have := resolvePieces_flat P (expandsPlain_parseRuleF P aliases) _ _ h Ctx.empty rfl rfl
+  simp only [parseRuleF, this]
+  simp [Ctx.empty]
+
+/-- the fields of a flat rule are numbered consecutively in rule order. -/
+theorem specFrom_keys (items : List SItem) : ∀ k,
+    (specFrom k items).2.map Prod.fst = List.range' k (specFrom k items).2.length := by
+  induction items with
+  | nil => intro k; simp [specFrom]
+  | cons it rest ih =>
+    intro k
+    cases it with
+    | text t => simpa [specFrom] using ih k
+    | ref d => simpa [specFrom] using ih k
+    | cap d path fl => simp [specFrom, ih (k + 1), List.range'_succ]
+
+/-- (ii, matching) a compiled rule matches an input exactly when the engine finds a match of the
+    compiled source; with `flat_rule_source` and a source free of `%{` (so that `Grok::compile`
+    expands nothing) that source is the anchored concatenation itself. -/
+theorem rule_matches_iff_source_matches (P : Prims) (E : Engine) (r : Rule E) (input : Str) :
+    applyRule P E r input = .ok .noMatch ↔ E.captures r.rx input = none := by
+  unfold applyRule
+  cases hc : E.captures r.rx input with
+  | none => simp
+  | some caps =>
+    simp only [reduceCtorEq, iff_false]
+    intro h
+    obtain ⟨x, _, hx⟩ := bind_eq_ok h
+    simp at hx
+
+theorem compileRule_flat (P : Prims) (E : Engine) (lib aliases : List (Str × Str)) (rule : Str)
+    (items : List SItem) (h : ReadsAs P aliases rule items)
+    (hno : noPh (wrap (specFrom 0 items).1) = true) (r : Rule E)
+    (hr : compileRule P E lib aliases rule = .ok r) :
+    E.compile (wrap (specFrom 0 items).1) = .ok r.rx ∧ r.fields = (specFrom 0 items).2 ∧
+      r.names = patternNames [] (E.names r.rx) := by
+  unfold compileRule at hr
+  simp only [flat_rule_source P aliases rule items h, bind_ok, grokExpand_noPh _ _ hno] at hr
+  cases hc : E.compile (wrap (specFrom 0 items).1) with
+  | ok rx => simp only [hc, pure_eq_ok, Out.ok.injEq] at hr; subst hr; exact ⟨rfl, rfl, rfl⟩
+  | bad => simp [hc] at hr
+  | unsupported => simp [hc] at hr
+
+/-! ## (iv) captured fields = matched substrings after the declared filters, in rule order
+
+  `expectedFrom` (VrlModel/C32.lean) is the Spec: every non-empty captured substring goes through
+  its declared filters and is stored at its destination, in the order of the rule. The
+  implementation visits the captures in the `BTreeMap` order of their generated names, which is the
+  rule order only up to ten captures (`grok10 < grok2`): `captures_in_rule_order_partial`, witness
+  `witness_name_order`. -/
+
+/-- (iv, partial: at most ten captures) the object built by `apply_grok_rule` is the Spec's:
+    substrings, through the filters, stored in rule order. -/
+theorem captures_in_rule_order_partial (P : Prims) (fields : List (Nat × Field))
+    (caps : List (Str × Option Str)) (hnum : Numbered fields) (hk : fields.length ≤ 10)
+    (parsed : Value) (n : Nat) :
+    applyCaptures P fields caps (patternNames [] ((List.range fields.length).map grokName)) parsed n
+      = expectedFrom P (capsOf fields (textOf caps)) parsed n := by
+  rw [patternNames_small _ (by omega)]
+  have hmap : (List.range fields.length).map (fun i => (grokName i, grokName i))
+      = fields.map (fun kv => (grokName kv.1, grokName kv.1)) := by
+    rw [← hnum, List.map_map]; rfl
+  rw [hmap]
+  apply applyCaptures_eq_expectedFrom
+  intro kv hkv
+  refine ⟨?_, lookupField_of_nodup fields (numbered_nodup hnum) kv hkv⟩
+  have : kv.1 ∈ fields.map Prod.fst := List.mem_map_of_mem hkv
+  rw [hnum] at this
+  have := List.mem_range.mp this
+  omega
+
+/-- (iv) for a compiled flat rule with at most ten captures whose engine reports the group names in
+    order, matching an input yields exactly the Spec object for the substrings the engine captured. -/
+theorem flat_rule_captures (P : Prims) (E : Engine) (r : Rule E) (input : Str)
+    (hnum : Numbered r.fields) (hk : r.fields.length ≤ 10)
+    (hnames : r.names = patternNames [] ((List.range r.fields.length).map grokName))
+    (caps : List (Str × Option Str)) (hc : E.captures r.rx input = some caps) :
+    applyRule P E r input =
+      (match expectedFrom P (capsOf r.fields (textOf caps)) (.obj .nil) 0 with
+       | .ok (v, n) => .ok (.matched (pp v) n)
+       | .err e => .err e
+       | .panic => .panic
+       | .oom => .oom
+       | .fuel => .fuel) := by
+  unfold applyRule
+  simp only [hc, hnames, captures_in_rule_order_partial P r.fields caps hnum hk]
+  cases expectedFrom P (capsOf r.fields (textOf caps)) (.obj .nil) 0 <;> rfl
+
+/-- the fields of a flat rule satisfy the numbering hypothesis of the two theorems above. -/
+theorem specFrom_numbered (items : List SItem) : Numbered (specFrom 0 items).2 := by
+  unfold Numbered
+  rw [specFrom_keys items 0, List.range_eq_range']
+
+/-! ### the filters' own laws -/
+
+theorem filter_nullIf (P : Prims) (s t : Str) :
+    applyFilter P (.str s) (.nullIf t) = if s = t then .val .null else .val (.str s) := rfl
+
+theorem filter_boolean (P : Prims) (s : Str) :
+    applyFilter P (.str s) .boolean = .val (.bool (s.map Char.toLower = cs!"true")) := rfl
+
+theorem filter_lowercase (P : Prims) (s t : Str) (h : P.lower s = some t) :
+    applyFilter P (.str s) .lowercase = .val (.str t) := by simp [applyFilter, h]
+
+theorem filter_uppercase (P : Prims) (s t : Str) (h : P.upper s = some t) :
+    applyFilter P (.str s) .uppercase = .val (.str t) := by simp [applyFilter, h]
+
+/-- `integer` yields an `i64`, and only from text. -/
+theorem filter_integer_range (P : Prims) (v : SV) (i : Int) (h : applyFilter P v .integer = .val (.int i)) :
+    (∃ s, v = .str s) ∧ i64Min ≤ i ∧ i ≤ i64Max := by
+  cases v with
+  | str s =>
+    refine ⟨⟨s, rfl⟩, ?_⟩
+    simp only [applyFilter] at h
+    split at h <;> simp at h
+    rename_i j hj
+    subst h
+    unfold parseI64 at hj
+    simp only at hj
+    split at hj <;> simp at hj <;> (obtain ⟨_, hj1, hj2⟩ := hj; subst hj2; exact hj1)
+  | int _ => simp [applyFilter] at h
+  | float _ => simp [applyFilter] at h
+  | bool _ => simp [applyFilter] at h
+  | null => simp [applyFilter] at h
+
+/-- a value dropped by a filter (null result or failed filter) stays dropped. -/
+theorem applyFilters_none (P : Prims) (fs : List Filter) (n : Nat) : applyFilters P fs none n = .ok (none, n) := by
+  induction fs with
+  | nil => rfl
+  | cons f fs ih => simpa [applyFilters] using ih
+
+/-- a single capture stored at a fresh one-segment destination: the field holds the filtered substring. -/
+theorem single_capture_field (P : Prims) (d t : Str) (fl : List Filter) (v : SV) (k : Nat) (ht : t.isEmpty = false)
+    (hf : applyFilters P fl (some (.str t)) 0 = .ok (some v, k)) :
+    expectedFrom P [⟨[d], fl, t⟩] (.obj .nil) 0 = .ok (.obj (.cons (utf8 d) v.toValue .nil), k) := by
+  simp [expectedFrom, ht, hf, storeField, fieldPath, Value.get, Value.getOpt, VMap.get, Value.insertOpt,
+    Value.asMap, VMap.insert]
 
 /-! ## (iii) a literal-only rule matches exactly its own text -/
 
